@@ -21,9 +21,8 @@ def setup():
     src = os.path.join(repo, "src")
     sys.path.insert(0, src)
     sys.dont_write_bytecode = True
-    import logging
-
-    logging.disable(logging.CRITICAL)
+    # logging is left at Python's default configuration: a library that logs a warning while parsing / constructing writes to stderr
+    # (the operations below read streams with quitonerror=ERR_IGNORE, the one mode in which the reader itself is documented to stay silent)
     import pyubx2  # noqa: F401
 
     return src
@@ -122,7 +121,9 @@ def run_op(op):
         if k == "construct":
             kw = {}
             for a, v in op["kwargs"].items():
-                kw[a] = bytes.fromhex(v["hex"]) if isinstance(v, dict) and "hex" in v else v
+                # every evaluation gets its OWN copy of list values: the message may keep the caller's list, and the hostile-caller
+                # tainting below would otherwise alter the operation's input for its next evaluation
+                kw[a] = bytes.fromhex(v["hex"]) if isinstance(v, dict) and "hex" in v else (list(v) if isinstance(v, list) else v)
             m = UBXMessage(bytes([op["cls"]]), bytes([op["id"]]), op["mode"], parsebitfield=op.get("pbf", 1), **kw)
             return digest(m)
         if k == "config":
